@@ -128,6 +128,43 @@ theorem accepts_consistent (h : Header) (size : Nat) (es : List Entry) (hc : Con
 def sampleH : Header := { rootOffset := 127, rootLength := 10, metadataOffset := 137, metadataLength := 2, leafDirectoryOffset := 139, leafDirectoryLength := 0, tileDataOffset := 139, tileDataLength := 7, addressedTilesCount := 4, tileEntriesCount := 3, tileContentsCount := 2, clustered := true, minZoom := 0, maxZoom := 1, centerZoom := 0, minLonE7 := (-10), maxLonE7 := 10, minLatE7 := (-10), maxLatE7 := 10 }
 example : verify sampleH 146 [⟨0, 0, 3, 1⟩, ⟨1, 3, 4, 2⟩, ⟨4, 0, 3, 1⟩] = none := by decide
 
+theorem lastId_eq (e : Entry) (h1 : 1 ≤ e.rl) (h2 : e.id + e.rl ≤ 2^64) : lastId e = e.id + e.rl - 1 := by
+  unfold lastId
+  split
+  · apply Nat.mod_eq_of_lt; omega
+  · omega
+
+/-- **`maxId` is the highest addressed tile** (what `MaxZoom` is checked against): no addressed tile lies
+    above it, and it is itself addressed — for entries with non-empty runs that do not wrap around 2^64 -/
+theorem maxId_is_highest (es : List Entry) (h : ∀ e ∈ es, 1 ≤ e.rl ∧ e.id + e.rl ≤ 2^64) :
+    (∀ e ∈ es, ∀ t, e.id ≤ t → t < e.id + e.rl → t ≤ maxId es) ∧
+      (es ≠ [] → ∃ e ∈ es, e.id ≤ maxId es ∧ maxId es < e.id + e.rl) := by
+  induction es with
+  | nil => exact ⟨fun e he => by simp at he, fun hne => absurd rfl hne⟩
+  | cons a r ih =>
+    have ha := h a (by simp)
+    have hr := ih (fun e he => h e (by simp [he]))
+    have hl := lastId_eq a ha.1 ha.2
+    constructor
+    · intro e he t h1 h2
+      simp only [maxId]
+      rcases List.mem_cons.mp he with rfl | he
+      · have : t ≤ lastId e := by rw [hl]; omega
+        exact Nat.le_trans this (Nat.le_max_left _ _)
+      · exact Nat.le_trans (hr.1 e he t h1 h2) (Nat.le_max_right _ _)
+    · intro _
+      simp only [maxId]
+      by_cases hc : maxId r ≤ lastId a
+      · refine ⟨a, by simp, ?_⟩
+        rw [Nat.max_eq_left hc, hl]; omega
+      · have hgt : lastId a < maxId r := by omega
+        have hne : r ≠ [] := by
+          intro hnil; subst hnil; simp [maxId] at hgt
+        obtain ⟨e, he, h1, h2⟩ := hr.2 hne
+        refine ⟨e, by simp [he], ?_⟩
+        rw [Nat.max_eq_right (by omega)]
+        exact ⟨h1, h2⟩
+
 /-- D25 (test): the maximum zoom is that of the last ADDRESSED tile — an archive whose only entry is a
     run over tiles 0..4 (zoom 0 and all of zoom 1) is consistent with MaxZoom = 1, not with MaxZoom = 0 -/
 def runH (mz : Nat) : Header := { rootOffset := 127, rootLength := 10, metadataOffset := 137, metadataLength := 2, leafDirectoryOffset := 139, leafDirectoryLength := 0, tileDataOffset := 139, tileDataLength := 3, addressedTilesCount := 5, tileEntriesCount := 1, tileContentsCount := 1, clustered := true, minZoom := 0, maxZoom := mz, centerZoom := 0, minLonE7 := (-10), maxLonE7 := 10, minLatE7 := (-10), maxLatE7 := 10 }
